@@ -23,11 +23,12 @@ Proof.
 Qed.
 
 (* ------------------------------------------------------------------ specification vocabulary *)
-(* the signature on j verifies under the single key of the right type the key jar holds for X, or
-   (HMAC only) under one of the provider's own symmetric keys *)
+(* the signature on j verifies under a key of the right type the key jar holds for X that the kid header selects
+   (issuer_sel: the keys carrying that kid; for a header without kid the single key of that type), or (HMAC only)
+   under one of the provider's own symmetric keys *)
 Definition signed_by_client (cx : actx) (X : pystr) (j : jwt) : Prop :=
   exists v, key_verifies (j_alg j) (j_key j) v = true /\
-    ((exists l, assoc X (kj_iss (cx_kj cx)) = Some l /\ filter (vkey_is (j_alg j)) l = [v])
+    ((exists l, assoc X (kj_iss (cx_kj cx)) = Some l /\ In v (issuer_sel (cx_kj cx) (j_alg j) (j_kid j) l))
      \/ (j_alg j = AlgHS /\ In v (kj_own (cx_kj cx)))).
 
 (* issued by X, inside its validity window (15 s skew), and its jti - if any - was not in the replay
@@ -55,7 +56,7 @@ Inductive credential_ok (cx : actx) (ep : endpoint) (rq : request) (now : Z) (jd
     credential_ok cx ep rq now jdb jdb' X MPost
 | CO_secret_jwt j :
     r_assertion rq = Some (Jwt j) -> j_alg j = AlgHS -> signed_by_client cx X j ->
-    hs_key_is_secret cx X = true -> aud_ok ep j -> jwt_fresh X j now jdb jdb' ->
+    hs_key_is_secret cx X (j_kid j) = true -> aud_ok ep j -> jwt_fresh X j now jdb jdb' ->
     credential_ok cx ep rq now jdb jdb' X MSecretJwt
 | CO_private_jwt j :
     r_assertion rq = Some (Jwt j) -> (j_alg j = AlgRS \/ j_alg j = AlgES) -> signed_by_client cx X j ->
@@ -186,19 +187,33 @@ Proof.
   rewrite Hf in H. destruct H as [H|[]]. now symmetry.
 Qed.
 
-Lemma candidates_in kj a i ks v :
-  candidates kj a (Some i) = Some ks -> In v ks ->
-  (exists l, assoc i (kj_iss kj) = Some l /\ filter (vkey_is a) l = [v])
+Lemma with_kid_in kj k ks v : In v (with_kid kj k ks) -> In v ks /\ kid_of kj v = k.
+Proof. unfold with_kid. intro H. apply filter_In in H as [H1 H2]. apply str_eqb_eq in H2. auto. Qed.
+
+Lemma pick_in kj kid ks v : In v (pick kj kid ks) -> In v ks.
+Proof. unfold pick. destruct (kid_given kid); [intro H; apply with_kid_in in H; tauto|auto]. Qed.
+
+Lemma issuer_sel_in kj a kid l v : In v (issuer_sel kj a kid l) -> In v l /\ vkey_is a v = true.
+Proof.
+  unfold issuer_sel. destruct (kid_given kid) as [k|].
+  - intro H. apply with_kid_in in H as [H _]. apply filter_In in H. exact H.
+  - destruct (filter (vkey_is a) l) as [|k [|k2 r]] eqn:Ef.
+    + intros [].
+    + intros [<-|[]]. apply filter_In. rewrite Ef. now left.
+    + intros [].
+Qed.
+
+Lemma candidates_in kj a kid i ks v :
+  candidates kj a kid (Some i) = Some ks -> In v ks ->
+  (exists l, assoc i (kj_iss kj) = Some l /\ In v (issuer_sel kj a kid l))
   \/ (a = AlgHS /\ In v (kj_own kj)).
 Proof.
   unfold candidates. destruct (assoc i (kj_iss kj)) as [l|] eqn:El; [|discriminate].
   intros H Hin. inversion H; subst; clear H.
   apply in_app_or in Hin as [Hin|Hin].
-  - left. exists l. split; [reflexivity|].
-    destruct (filter (vkey_is a) l) as [|k [|k2 r]] eqn:Ef; try (destruct Hin; fail).
-    destruct Hin as [<-|[]]. reflexivity.
+  - left. exists l. split; [reflexivity|exact Hin].
   - right. destruct a; try (destruct Hin; fail). split; [reflexivity|].
-    apply filter_In in Hin. tauto.
+    apply pick_in in Hin. apply filter_In in Hin. tauto.
 Qed.
 
 Lemma time_ok_spec j now :
@@ -218,18 +233,18 @@ Lemma unpack_ok cx now j i :
 Proof.
   unfold unpack. intros H Hi.
   destruct (j_alg j) eqn:Ea; [discriminate| | |];
-    (destruct (candidates (cx_kj cx) _ (j_iss j)) as [[|k ks]|] eqn:Ec; try discriminate;
+    (destruct (candidates (cx_kj cx) _ _ (j_iss j)) as [[|k ks]|] eqn:Ec; try discriminate;
      destruct (existsb _ (k :: ks)) eqn:Ex; try discriminate;
      destruct (time_ok j now) eqn:Et; try discriminate;
      split; [discriminate|]; split; [|reflexivity];
      apply existsb_key_verifies in Ex as [v [Hv Hk]];
-     rewrite Hi in Ec; destruct (candidates_in _ _ _ _ _ Ec Hv) as [Hc|Hc];
+     rewrite Hi in Ec; destruct (candidates_in _ _ _ _ _ _ Ec Hv) as [Hc|Hc];
      exists v; rewrite Ea; (split; [exact Hk|]); [left; exact Hc|right; exact Hc]).
 Qed.
 
 Lemma key_type_ok_spec cx hs j :
   key_type_ok cx hs j = true ->
-  (hs = true -> j_alg j = AlgHS /\ exists i, j_iss j = Some i /\ hs_key_is_secret cx i = true)
+  (hs = true -> j_alg j = AlgHS /\ exists i, j_iss j = Some i /\ hs_key_is_secret cx i (j_kid j) = true)
   /\ (hs = false -> j_alg j <> AlgHS).
 Proof.
   unfold key_type_ok. destruct (j_alg j) eqn:Ea; destruct hs; cbn; intro H; try discriminate;
@@ -242,7 +257,7 @@ Lemma jws_verify_ok cx ep now m hs t jdb ai jdb' :
   exists j i, t = Jwt j /\ j_iss j = Some i
     /\ ai = {| ai_client := Some i; ai_method := m; ai_token := None |}
     /\ j_alg j <> AlgNone /\ signed_by_client cx i j /\ aud_ok ep j /\ jwt_fresh i j now jdb jdb'
-    /\ (hs = true -> j_alg j = AlgHS /\ hs_key_is_secret cx i = true)
+    /\ (hs = true -> j_alg j = AlgHS /\ hs_key_is_secret cx i (j_kid j) = true)
     /\ (hs = false -> j_alg j <> AlgHS).
 Proof.
   unfold jws_verify. intros H.
@@ -424,19 +439,42 @@ Proof.
 Qed.
 
 (* the literal reading for client_secret_jwt: when the provider holds no symmetric keys of its own and
-   X has a (non-empty) secret, the assertion was MACed with exactly that secret *)
+   X has a (non-empty) secret, the assertion was MACed with exactly that secret - the CURRENT one, whatever
+   other symmetric keys (superseded secrets) the key jar holds for X.  For a header with a kid this needs that
+   no two of X's symmetric keys carry the same kid (kids are thumbprints of the key material). *)
+Definition oct_kids_distinct (kj : keyjar) (X : pystr) : Prop :=
+  forall l v v', assoc X (kj_iss kj) = Some l -> In v l -> In v' l ->
+    vkey_is AlgHS v = true -> vkey_is AlgHS v' = true -> kid_of kj v = kid_of kj v' -> v = v'.
+
 Theorem hs_signed_with_secret cx ep rq now jdb jdb' X c s :
   credential_ok cx ep rq now jdb jdb' X MSecretJwt ->
   filter (vkey_is AlgHS) (kj_own (cx_kj cx)) = [] ->
   assoc X (cx_cdb cx) = Some c -> c_secret c = Some s -> s <> [] ->
-  exists j, r_assertion rq = Some (Jwt j) /\ j_alg j = AlgHS /\ j_key j = KSym s.
+  exists j, r_assertion rq = Some (Jwt j) /\ j_alg j = AlgHS
+    /\ (kid_given (j_kid j) = None \/ oct_kids_distinct (cx_kj cx) X -> j_key j = KSym s).
 Proof.
   intros H Hown Hc Hs Hne. inversion H; subst. exists j. split; [assumption|]. split; [assumption|].
-  destruct H2 as [v [Hk [[l [Hl Hf]]|[_ Hin]]]].
-  - unfold hs_key_is_secret in H3. rewrite Hc, Hs in H3. destruct s as [|x s']; [congruence|].
-    rewrite Hl in H3. rewrite H1 in Hf. rewrite Hf in H3. destruct v as [k0| |]; try discriminate.
-    apply str_eqb_eq in H3. subst k0. rewrite H1 in Hk. destruct (j_key j); cbn in Hk; try discriminate.
-    apply str_eqb_eq in Hk. now subst.
+  intros Hkid.
+  assert (forall v, key_verifies (j_alg j) (j_key j) v = true -> v = VOct s -> j_key j = KSym s) as Fin.
+  { intros v Hk ->. rewrite H1 in Hk. destruct (j_key j); cbn in Hk; try discriminate.
+    apply str_eqb_eq in Hk. now subst. }
+  destruct H2 as [v [Hk [[l [Hl Hin]]|[_ Hin]]]].
+  - apply (Fin v Hk).
+    unfold hs_key_is_secret in H3. rewrite Hc, Hs in H3. destruct s as [|x s']; [congruence|].
+    unfold hs_keys in H3. rewrite Hl in H3. rewrite H1 in Hin.
+    unfold issuer_sel in Hin. unfold pick in H3.
+    destruct (kid_given (j_kid j)) as [k|] eqn:Ek.
+    + destruct Hkid as [Hkid|Hd]; [discriminate|].
+      destruct (with_kid (cx_kj cx) k (filter (vkey_is AlgHS) l)) as [|[k0| |] r] eqn:Ew; try discriminate.
+      apply str_eqb_eq in H3. subst k0.
+      assert (In (VOct (x :: s')) (with_kid (cx_kj cx) k (filter (vkey_is AlgHS) l))) as Hs0 by (rewrite Ew; now left).
+      rewrite <- Ew in Hin.
+      apply with_kid_in in Hin as [Hv1 Hv2]. apply with_kid_in in Hs0 as [Hs1 Hs2].
+      apply filter_In in Hv1 as [Hv1 Hv3]. apply filter_In in Hs1 as [Hs1 Hs3].
+      apply (Hd l v (VOct (x :: s')) Hl Hv1 Hs1 Hv3 Hs3). congruence.
+    + destruct (filter (vkey_is AlgHS) l) as [|k0 [|k2 r]] eqn:Ef; try (destruct Hin; fail).
+      destruct Hin as [<-|[]]. destruct k0 as [k0| |]; try discriminate.
+      apply str_eqb_eq in H3. now subst.
   - exfalso. assert (In v (filter (vkey_is AlgHS) (kj_own (cx_kj cx)))) as Hf.
     { apply filter_In. split; [exact Hin|]. rewrite H1 in Hk. eapply key_verifies_type; eauto. }
     rewrite Hown in Hf. destruct Hf.
@@ -805,8 +843,7 @@ Section Unforgeable.
     pose proof (d_fst _ _ _ D3) as Da. pose proof (d_snd _ _ _ D3) as Dr.
     assert (forall j, signed_by_client cx X j -> never_published (j_key j)) as Hkey.
     { intros j [v [Hk [[l [Hl Hf]]|[_ Hin]]]]; rewrite (key_verifies_skey _ _ _ Hk).
-      - eapply Hreg; eauto. assert (In v (filter (vkey_is (j_alg j)) l)) as Hv by (rewrite Hf; now left).
-        apply filter_In in Hv. tauto.
+      - eapply Hreg; eauto. apply issuer_sel_in in Hf. tauto.
       - apply Hown; assumption. }
     inversion Hc; subst; rewrite <- H0 in *.
     - (* basic: the password is X's secret, which is not derivable *)
@@ -828,3 +865,161 @@ Section Unforgeable.
     - cbn in Hm. discriminate.
   Qed.
 End Unforgeable.
+
+(* ------------------------------------------------------------------ the credential history of a client *)
+(* (a) in ANY state of client database and key jar - in particular after any history of registrations, whatever
+   superseded secrets the key jar still holds - a request accepted as X through a secret-based method was made
+   with X's CURRENT secret (the one in the client database) *)
+Definition made_with_secret (cx : actx) (rq : request) (X s : pystr) (m : meth) : Prop :=
+  match m with
+  | MBasic => exists t, r_hdr rq = HBasicText t /\ split1_c colon t = Some (X, s)
+  | MPost => r_client_id rq = Some X /\ r_client_secret rq = Some s
+  | MSecretJwt => exists j, r_assertion rq = Some (Jwt j) /\ j_alg j = AlgHS
+                   /\ (kid_given (j_kid j) = None \/ oct_kids_distinct (cx_kj cx) X -> j_key j = KSym s)
+  | _ => True
+  end.
+
+Theorem current_secret_only cx ep rq now jdb jdb' ai X c s :
+  client_authentication cx ep rq now jdb = (Ok (Some ai), jdb') ->
+  ai_client ai = Some X ->
+  assoc X (cx_cdb cx) = Some c -> c_secret c = Some s -> s <> [] ->
+  filter (vkey_is AlgHS) (kj_own (cx_kj cx)) = [] ->
+  made_with_secret cx rq X s (ai_method ai).
+Proof.
+  intros H HX Hc Hs Hne Hown.
+  destruct (authenticating (ai_method ai)) eqn:Hau.
+  2:{ destruct (ai_method ai); cbn in Hau; try discriminate; exact I. }
+  destruct (sound _ _ _ _ _ _ _ _ H HX Hau) as [_ [_ Hcred]].
+  destruct (ai_method ai) eqn:Em; cbn [made_with_secret]; try exact I.
+  - inversion Hcred; subst.
+    match goal with Hso : secret_of _ _ _ |- _ => destruct Hso as [c' [Hc1 Hc2]] end.
+    rewrite Hc in Hc1. inversion Hc1; subst c'. rewrite Hs in Hc2. inversion Hc2; subst. eauto.
+  - inversion Hcred; subst.
+    match goal with Hso : secret_of _ _ _ |- _ => destruct Hso as [c' [Hc1 Hc2]] end.
+    rewrite Hc in Hc1. inversion Hc1; subst c'. rewrite Hs in Hc2. inversion Hc2; subst. auto.
+  - eapply hs_signed_with_secret; eauto.
+Qed.
+
+(* (b) what the operations on the credentials do *)
+Lemma register_record cx r : assoc (rg_id r) (cx_cdb (register cx r)) = Some (rg_client r).
+Proof. cbn. apply assoc_aset_same. Qed.
+
+Lemma register_keys cx r : assoc (rg_id r) (kj_iss (cx_kj (register cx r))) = Some (in_force r).
+Proof. cbn. apply assoc_aset_same. Qed.
+
+Lemma adel_other {V} k k' (d : list (pystr * V)) : k <> k' -> assoc k' (adel k d) = assoc k' d.
+Proof.
+  intro Hne. induction d as [|[k2 v2] r IH]; cbn; [reflexivity|].
+  destruct (str_eqb k k2) eqn:E.
+  - apply str_eqb_eq in E. subst k2.
+    assert (str_eqb k' k = false) as -> by (apply str_eqb_neq; congruence). reflexivity.
+  - cbn. destruct (str_eqb k' k2); auto.
+Qed.
+
+(* an operation about another client leaves X's record, X's keys and the provider's own keys alone *)
+Lemma cred_step_frame cx o X : op_client o <> X ->
+  assoc X (cx_cdb (cred_step cx o)) = assoc X (cx_cdb cx)
+  /\ assoc X (kj_iss (cx_kj (cred_step cx o))) = assoc X (kj_iss (cx_kj cx)).
+Proof.
+  destruct o as [r|r|i|i ks kids|i c]; cbn [op_client cred_step]; intro Hne; cbn.
+  - split; apply assoc_aset_other; exact Hne.
+  - auto.
+  - split; [apply adel_other; exact Hne|reflexivity].
+  - split; [reflexivity|apply assoc_aset_other; exact Hne].
+  - split; [apply assoc_aset_other; exact Hne|reflexivity].
+Qed.
+
+Lemma cred_step_own cx o : kj_own (cx_kj (cred_step cx o)) = kj_own (cx_kj cx).
+Proof. destruct o; reflexivity. Qed.
+
+Lemma cred_run_own h : forall cx, kj_own (cx_kj (cred_run cx h)) = kj_own (cx_kj cx).
+Proof.
+  induction h as [|o h IH]; intros cx; cbn; [reflexivity|]. unfold cred_run in IH. rewrite IH.
+  apply cred_step_own.
+Qed.
+
+Definition touches (X : pystr) (o : cred_op) : bool := str_eqb (op_client o) X.
+Definition untouched (X : pystr) (h : list cred_op) : bool := forallb (fun o => negb (touches X o)) h.
+
+Lemma cred_run_frame h : forall cx X, untouched X h = true ->
+  assoc X (cx_cdb (cred_run cx h)) = assoc X (cx_cdb cx)
+  /\ assoc X (kj_iss (cx_kj (cred_run cx h))) = assoc X (kj_iss (cx_kj cx)).
+Proof.
+  induction h as [|o h IH]; intros cx X Hh; cbn; [auto|].
+  cbn in Hh. apply andb_true_iff in Hh as [Ho Hh]. unfold cred_run in IH.
+  destruct (IH (cred_step cx o) X Hh) as [-> ->].
+  apply cred_step_frame. apply negb_true_iff in Ho. unfold touches in Ho. now apply str_eqb_neq in Ho.
+Qed.
+
+(* (c) after an accepted (re-)registration r of X - on top of ANY earlier state cx0, e.g. one whose key jar holds
+   X's earlier secret and keys - and any history h of operations about OTHER clients, the material in force for
+   X is exactly what r brought: its record, the keys of its jwks and its secret *)
+Theorem registration_in_force cx0 r h : untouched (rg_id r) h = true ->
+  assoc (rg_id r) (cx_cdb (cred_run (register cx0 r) h)) = Some (rg_client r)
+  /\ assoc (rg_id r) (kj_iss (cx_kj (cred_run (register cx0 r) h))) = Some (in_force r).
+Proof.
+  intro Hh. destruct (cred_run_frame h (register cx0 r) _ Hh) as [-> ->].
+  split; [apply register_record|apply register_keys].
+Qed.
+
+(* a refused registration changes nothing: the material in force is what was in force before *)
+Theorem refused_registration_no_effect cx r h :
+  cred_run cx (CRefused r :: h) = cred_run cx h.
+Proof. reflexivity. Qed.
+
+(* only the secret of the last registration authenticates X through the secret-based methods *)
+Theorem rotation_sound cx0 r h ep rq now jdb jdb' ai s2 :
+  untouched (rg_id r) h = true ->
+  c_secret (rg_client r) = Some s2 -> s2 <> [] ->
+  filter (vkey_is AlgHS) (kj_own (cx_kj cx0)) = [] ->
+  client_authentication (cred_run (register cx0 r) h) ep rq now jdb = (Ok (Some ai), jdb') ->
+  ai_client ai = Some (rg_id r) ->
+  made_with_secret (cred_run (register cx0 r) h) rq (rg_id r) s2 (ai_method ai).
+Proof.
+  intros Hh Hs Hne Hown H HX.
+  eapply current_secret_only; eauto.
+  - apply registration_in_force. exact Hh.
+  - rewrite cred_run_own. exact Hown.
+Qed.
+
+(* and the signature of an accepted assertion / request object verifies under a key that the last registration
+   brought (a key of its jwks, its secret) or - HMAC - under one of the provider's own symmetric keys: key
+   material of an earlier registration of X never authenticates X again *)
+Theorem rotation_keys cx0 r h ep rq now jdb jdb' ai j :
+  untouched (rg_id r) h = true ->
+  client_authentication (cred_run (register cx0 r) h) ep rq now jdb = (Ok (Some ai), jdb') ->
+  ai_client ai = Some (rg_id r) ->
+  used_jwt rq (ai_method ai) = Some j ->
+  exists v, key_verifies (j_alg j) (j_key j) v = true
+    /\ (In v (in_force r) \/ (j_alg j = AlgHS /\ In v (kj_own (cx_kj cx0)))).
+Proof.
+  intros Hh H HX Hu.
+  assert (authenticating (ai_method ai) = true) as Hau.
+  { unfold used_jwt in Hu. destruct (ai_method ai); try discriminate; reflexivity. }
+  destruct (sound _ _ _ _ _ _ _ _ H HX Hau) as [_ [_ Hc]].
+  destruct (registration_in_force cx0 r h Hh) as [_ Hk].
+  assert (forall j0, signed_by_client (cred_run (register cx0 r) h) (rg_id r) j0 ->
+            exists v, key_verifies (j_alg j0) (j_key j0) v = true
+              /\ (In v (in_force r) \/ (j_alg j0 = AlgHS /\ In v (kj_own (cx_kj cx0))))) as W.
+  { intros j0 [v [Hv [[l [Hl Hin]]|[Ha Hin]]]]; exists v; (split; [exact Hv|]).
+    - left. rewrite Hk in Hl. inversion Hl; subst l. apply issuer_sel_in in Hin. tauto.
+    - right. rewrite cred_run_own in Hin. auto. }
+  unfold used_jwt in Hu.
+  inversion Hc; subst;
+    match goal with Hm : _ = ai_method ai |- _ => rewrite <- Hm in Hu end; try discriminate;
+    match goal with Hr : _ rq = Some (Jwt ?j0) |- _ => rewrite Hr in Hu; inversion Hu; subst; apply W; assumption end.
+Qed.
+
+(* a deployer who files a new secret next to the old one (keyjar.add_symmetric) and updates the client record: the
+   key jar then holds both - and still only the record's secret authenticates (current_secret_only) *)
+Theorem filed_keys_accumulate cx i ks kids l :
+  assoc i (kj_iss (cx_kj cx)) = Some l ->
+  assoc i (kj_iss (cx_kj (file_keys cx i ks kids))) = Some (l ++ ks).
+Proof. intro Hl. cbn. rewrite Hl. apply assoc_aset_same. Qed.
+
+(* operations about one client leave every other client's record and keys alone *)
+Theorem credentials_isolated cx o i : op_client o <> i ->
+  assoc i (cx_cdb (cred_step cx o)) = assoc i (cx_cdb cx)
+  /\ assoc i (kj_iss (cx_kj (cred_step cx o))) = assoc i (kj_iss (cx_kj cx))
+  /\ kj_own (cx_kj (cred_step cx o)) = kj_own (cx_kj cx).
+Proof. intro H. destruct (cred_step_frame cx o i H) as [A B]. repeat split; auto. apply cred_step_own. Qed.
